@@ -1,3 +1,4 @@
+mod alloc;
 mod cluster;
 mod journal;
 mod panics;
@@ -13,6 +14,7 @@ fn main() {
     let code = match args[1].as_str() {
         "cluster" => walk::main(&args[2..]),
         "journal" => journal::main(&args[2..]),
+        "alloc" => alloc::main(&args[2..]),
         _ => {
             eprintln!("unknown command {}", args[1]);
             2
